@@ -5,6 +5,7 @@ TaskGroup, FifoQueueEventSource, logs.backtesting_log_mode.
 Simulated: sources' contents, handlers, jobs (all scripted from the tape), loop.
 """
 import asyncio
+import functools
 import collections
 import datetime
 
@@ -174,7 +175,13 @@ def run(tape, prop, tier):
                         res.probes["job_raised_cancelled_error"] += 1
                         raise asyncio.CancelledError()
                     raise RuntimeError("job boom")
-            d.schedule(t(when_s), job)
+            # any callable returning an awaitable is a legal job: plain coroutine functions, partials, callable objects
+            if j % 3 == 1:
+                d.schedule(t(when_s), functools.partial(_call_with, job))
+            elif j % 3 == 2:
+                d.schedule(t(when_s), CallableObject(job))
+            else:
+                d.schedule(t(when_s), job)
 
         def mk_handler(hid, kind):
             async def h(ev):
@@ -226,6 +233,17 @@ def run(tape, prop, tier):
             async def on_event(self, ev):
                 await self._fn(ev)
 
+        class CallableObject:
+            """an object with an async __call__ (no __name__ / __qualname__ of its own)"""
+            def __init__(self, fn):
+                self._fn = fn
+
+            async def __call__(self, *a):
+                return await self._fn(*a)
+
+        async def _call_with(fn, *a):
+            return await fn(*a)
+
         def sync_raiser(hid, h):
             # a plain callable that returns an awaitable is a legal handler; this one validates its input first and may
             # raise before there is anything to await
@@ -246,6 +264,14 @@ def run(tape, prop, tier):
                 hid += 1
                 h = mk_handler(hid, "src")
                 subs[i].append(hid)
+                if hid % 7 in (4, 6):
+                    hh = functools.partial(_call_with, h) if hid % 7 == 4 else CallableObject(h)
+                    res.probes["handler_is_partial_or_callable_object"] += 1
+                    d.subscribe(s, hh)
+                    if dup:
+                        d.subscribe(s, hh)
+                        res.probes["dup_subscription"] += 1
+                    continue
                 if hid % 5 == 3:
                     d.subscribe(s, sync_raiser(hid, h))
                     continue
